@@ -5,6 +5,7 @@ The several time.Now() reads inside one call are collapsed to one instant per ca
 import LA.Props.C10
 import LA.Props.C03
 import LA.Proofs.StateFacts
+import LA.Proofs.ReasmDeadline
 
 namespace LA.Reasm
 
@@ -62,6 +63,19 @@ theorem C19_deadline_fixed (s : St) (m : Msg) (t : Int) :
       rcases mem_insertEnd.mp hp with hp | hp
       · subst hp; exact Or.inr ⟨rfl, rfl, by simpa using hk⟩
       · exact Or.inl ⟨p, hp, rfl, rfl⟩
+
+/-- **The timeout runs from the first record, whatever arrives later.** After any history on a fresh
+Reassembler, the deadline of every buffered event is the clock reading of the push that buffered the
+event's *first* record plus the configured timeout: later records of the event, EOE markers, Maintain
+calls and pushes of other events never move it. -/
+theorem C19_deadline_from_first_record (maxSize timeout : Int) (ops : List Op) :
+    ∀ p ∈ (run (init maxSize timeout) ops).1.buf,
+      ∃ m tp tc, Op.push m tp tc ∈ ops ∧ p.2.msgs.head? = some m ∧ p.2.expire = tp + timeout := by
+  have := dl_run (T := timeout) ops [] (init maxSize timeout) rfl (fun p hp => by simp [init] at hp)
+  simpa [DeadlineFromFirstPush] using this
+
+/-- non-vacuity: an event of three records pushed at 10, 60 and 90 with timeout 100 expires at 110. -/
+example : ((run (init 5 100) [.push ⟨1, 7, 1300⟩ 10 10, .push ⟨2, 7, 1307⟩ 60 60, .push ⟨3, 7, 1302⟩ 90 90]).1.buf.map (·.2.expire)) = [110] := by decide
 
 /-- Close delivers every buffered event once, in buffer order, with loss accounting, and
 leaves nothing buffered. -/
